@@ -277,7 +277,7 @@ class C08:
                                     "mode": rc.choice(["pickle", "deepcopy"]),
                                     "seed": rc.randrange(1 << 30)})
             episodes.append({"rows": sel, "strategies": [rc.choice(D.STRATEGIES) for _ in range(b)],
-                             "perturb": perturb})
+                             "perturb": perturb, "reuse_store": rc.random() < 0.3})
         return {"cfg": cfg, "source": source, "origin": origin,
                 "instances": [E.enc_row(r) for r in rows], "episodes": episodes}
 
@@ -593,8 +593,28 @@ def _episode(run, holder, cfg, insts, ep, ep_i):
         run.nontrivial = True
     run.stats["episodes:" + name] += 1
     run.stats["rows:" + name] += B
-    with run.guard(name, "reset", phase="batch", B=B):
-        td = E.reset(holder["env"], cfg, rows)
+    if ep.get("reuse_store"):
+        # the instances live in one stored TensorDict (a dataset); episodes are reset from slices of it,
+        # which share its storage: an earlier complete episode on the same slice must leave them untouched
+        store = E.batch_of(cfg, [{k: v.clone() for k, v in r.items()} for r in rows])
+        with run.guard(name, "earlier episode on the stored instances", phase="reuse_store", B=B):
+            tdw = holder["env"].reset(store[0:B])
+            capw = D.step_bound_generic(cfg, tdw)
+            tw = 0
+            while not bool(E.done_vec(tdw).all()) and tw < capw:
+                aw = []
+                for r in range(B):
+                    ow = D.admitted(tdw["action_mask"][r])
+                    aw.append(ow[run.chooser.pick(len(ow))] if ow else 0)
+                tdw = E.step(holder["env"], tdw, torch.tensor(aw))
+                tw += 1
+        run.fault("reuse_store")
+        run.nontrivial = True
+        with run.guard(name, "reset from the stored instances", phase="batch", B=B):
+            td = holder["env"].reset(store[0:B])
+    else:
+        with run.guard(name, "reset", phase="batch", B=B):
+            td = E.reset(holder["env"], cfg, rows)
     td, executed, snap = _drive(run, holder, cfg, td, refs, 0, ep["strategies"], perturbs, "batch", ep_i)
     if len(executed) != refs[0].quota:   # implied by the done oracle; kept as a cross-check
         _viol(run, name, "quota", "steps_ne_quota", f"{len(executed)} steps for quota {refs[0].quota}", cfg=cfg)
